@@ -43,28 +43,75 @@ fn check_if_inputs_are_power_of_two(
     let mut is_even: bool = false;
 
     //if the first expression is a number literal that is a power of 2
-    if let Expression::NumberLiteral(_, val_string, _) = *box_expression {
-        let value = val_string
-            .parse::<u32>()
-            .expect("Could not parse NumberLiteral value from string to u32");
-
-        if (value != 0) && ((value & (value - 1)) == 0) {
+    if let Expression::NumberLiteral(_, val_string, exp_string) = *box_expression {
+        if number_literal_is_power_of_two(&val_string, &exp_string) {
             is_even = true;
         }
     }
 
-    //if the first expression is a number literal that is a power of 2
-    if let Expression::NumberLiteral(_, val_string, _) = *box_expression_1 {
-        let value = val_string
-            .parse::<u32>()
-            .expect("Could not parse NumberLiteral value from string to u32");
-
-        if (value != 0) && ((value & (value - 1)) == 0) {
+    //if the second expression is a number literal that is a power of 2
+    if let Expression::NumberLiteral(_, val_string, exp_string) = *box_expression_1 {
+        if number_literal_is_power_of_two(&val_string, &exp_string) {
             is_even = true;
         }
     }
 
     is_even
+}
+
+//Returns true if the value of a decimal number literal (digits with optional `_` separators and an
+//optional exponent, as in `1_024` or `32e0`) is a power of two. Works on the decimal digits so that
+//literals of any size (up to 2**256 and beyond) are handled without overflow.
+fn number_literal_is_power_of_two(val_string: &str, exp_string: &str) -> bool {
+    let mut digits: Vec<u8> = val_string
+        .bytes()
+        .filter(|b| b.is_ascii_digit())
+        .map(|b| b - b'0')
+        .collect();
+
+    let exp_string = exp_string.replace('_', "");
+    if !exp_string.is_empty() {
+        match exp_string.parse::<i64>() {
+            //A non zero value times a positive power of ten is divisible by 5
+            Ok(exponent) if exponent > 0 => return false,
+            //A negative exponent removes trailing zeros (anything else is not an integer)
+            Ok(exponent) => {
+                for _ in exponent..0 {
+                    if digits.pop() != Some(0) {
+                        return false;
+                    }
+                }
+            }
+            Err(_) => return false,
+        }
+    }
+
+    //Remove leading zeros, zero itself is not a power of two
+    let first_non_zero = digits.iter().position(|d| *d != 0);
+    let mut digits = match first_non_zero {
+        Some(position) => digits.split_off(position),
+        None => return false,
+    };
+
+    //Halve the number until it is 1 (power of two) or odd (not a power of two)
+    while digits.len() > 1 || digits[0] != 1 {
+        if digits[digits.len() - 1] % 2 == 1 {
+            return false;
+        }
+
+        let mut halved: Vec<u8> = Vec::with_capacity(digits.len());
+        let mut carry = 0;
+        for digit in digits {
+            let current = carry * 10 + digit;
+            if !(halved.is_empty() && current / 2 == 0) {
+                halved.push(current / 2);
+            }
+            carry = current % 2;
+        }
+        digits = halved;
+    }
+
+    true
 }
 
 #[test]
